@@ -936,11 +936,20 @@ def wiring(ctx):
                   any(isinstance(t, ast.Attribute) and core.src(t.value) == name for t in (n.targets if isinstance(n, ast.Assign) else [n.target]))]
         return probs
     extra_f, extra_t = other_paths(fl, "forward"), other_paths(tl, "inverse")
-    st = core.DISCHARGED if ok_f and not wrong_f and not extra_f else (core.VIOLATED if wrong_f or not fwd_calls else core.UNDECIDED)
+    # when the call is not in the function itself: is it made by something the function calls?  (resolved call graph)
+    from .model import Model as _Model
+    _m = _Model(ctx.sources)
+    reach_f = set(_m.reachable(["a5.core.coordinate_transforms.from_lonlat"])) if "a5.core.coordinate_transforms.from_lonlat" in _m.funcs else set()
+    reach_t = set(_m.reachable(["a5.core.coordinate_transforms.to_lonlat"])) if "a5.core.coordinate_transforms.to_lonlat" in _m.funcs else set()
+    via_helper_f = not fwd_calls and "a5.projections.authalic.AuthalicProjection.forward" in reach_f
+    via_helper_t = not inv_calls and "a5.projections.authalic.AuthalicProjection.inverse" in reach_t
+    st = core.DISCHARGED if ok_f and not wrong_f and not extra_f else (core.VIOLATED if wrong_f or (not fwd_calls and not via_helper_f) else core.UNDECIDED)
     if extra_f and ok_f and not wrong_f:
         ctx.unk("C15.3", "from_lonlat has a single conversion path", core.loc(CT, fl), f"{extra_f[:2]}: a second path or another use of the converter is not analysed")
     ctx.ob("C15.3", "from_lonlat converts the geodetic latitude with authalic.forward(deg_to_rad(latitude))", st, core.loc(CT, fl),
-           f"calls: {[core.src(c) for c in fwd_calls + wrong_f]}" + ("" if fwd_calls else " -- the authalic step is missing: latitudes are treated as spherical (0.19 deg off at 45 deg)"))
+           f"calls: {[core.src(c) for c in fwd_calls + wrong_f]}" +
+           ("" if fwd_calls else (" -- the conversion is applied inside a helper that from_lonlat calls; the wiring through it is not followed" if via_helper_f
+                                 else " -- the authalic step is missing: latitudes are treated as spherical (0.19 deg off at 45 deg)")))
     ok_t = False
     if len(inv_calls) == 1:
         # result flows into rad_to_deg(...) which becomes the returned latitude
@@ -951,7 +960,7 @@ def wiring(ctx):
         src_arg = strip_cast(defs_t.get(arg.id)) if isinstance(arg, ast.Name) else arg
         half_pi = src_arg is not None and core.src(src_arg).replace(" ", "") in ("math.pi/2-phi",)
         ok_t = bool(r2d) and half_pi
-    st = core.DISCHARGED if ok_t and not wrong_i and not extra_t else (core.VIOLATED if wrong_i or not inv_calls else core.UNDECIDED)
+    st = core.DISCHARGED if ok_t and not wrong_i and not extra_t else (core.VIOLATED if wrong_i or (not inv_calls and not via_helper_t) else core.UNDECIDED)
     ctx.ob("C15.3", "to_lonlat converts the authalic latitude with rad_to_deg(authalic.inverse(pi/2 - phi))", st, core.loc(CT, tl),
            f"calls: {[core.src(c) for c in inv_calls + wrong_i]}")
     # degree/radian factors
